@@ -67,7 +67,10 @@ func newC20Pair(rc *RunCtx, idx int, limit int) *c20Pair {
 	ver := []int{2, 3, 3, 23}[r.Intn(4)]
 	pol := polFor(ver)
 	f := []int{0, 0, 100, 300}[r.Intn(4)]
-	cfgs := []PartyCfg{{KeyIdx: (2 * idx) % 6, Pol: pol, Peer: 1, Frag: f, ErrHandler: r.Bool()}, {KeyIdx: (2*idx + 1) % 6, Pol: pol, Peer: 0, Frag: f, ErrHandler: r.Bool()}}
+	// the other policy bits vary per pair: whitespace tags, whitespace start, error start
+	// (require-encryption is left out so that clear-text sends happen before the session)
+	xa, xb := (r.Intn(8)<<3)&(PolWSTag|PolWSStart|PolErrStart), (r.Intn(8)<<3)&(PolWSTag|PolWSStart|PolErrStart)
+	cfgs := []PartyCfg{{KeyIdx: (2 * idx) % 6, Pol: pol | xa, Peer: 1, Frag: f, ErrHandler: r.Bool()}, {KeyIdx: (2*idx + 1) % 6, Pol: pol | xb, Peer: 0, Frag: f, ErrHandler: r.Bool()}}
 	w := NewWorld(seed, cfgs)
 	w.LogKeep = rc.KeepLog
 	rc.worlds = append(rc.worlds, w)
